@@ -41,6 +41,8 @@ def eval_views(repo, c):
       continue
     eng, flow = r
     forms = [v.d for (v, st, n) in flow.returns]
+    if dom.divisions:
+      forms = [('divides', dom.divisions[0]) for _ in forms]
     warned = [('warn', 'FutureWarning') in dom.must(st)
               for (v, st, n) in flow.returns]
     out[name] = (f, forms, warned)
@@ -65,15 +67,22 @@ def eval_views(repo, c):
         sqv = V(UNKNOWN, c=frozenset([sq]))
         eng._pending_raises = []
         eng._dead = False
+        dom.divisions = []
         res = eng.call_value(v, [u, w], {'squared': sqv}, f.node, st.copy(),
                              f)
-        forms.append(res.d)
+        forms.append(('divides', dom.divisions[0]) if dom.divisions
+                     else res.d)
       out['get_metric(squared=%s)' % sq] = (f, forms, None)
   return out
 
 
 def classify_distance(d, slots, coeff=1, squared=False):
   """(status, detail, quad) for a value expected to be coeff*Dist(slots)."""
+  if isinstance(d, tuple) and d and d[0] == 'divides':
+    return 'refuted', ('the view divides by the data-dependent scalar '
+                       '%s(...) at %s, which is zero for collapsed / '
+                       'duplicated points: 0/0 breaks d(x,x) = 0 and '
+                       'finiteness' % (d[1][0][1], d[1][1])), None
   if has_unknown(d):
     return 'unknown', 'normal form not derivable (construct outside the ' \
         'transfer tables)', None
